@@ -2212,15 +2212,15 @@ pub fn generate(prop: &str, tier: &str, seed: u64) -> Vec<String> {
     let mut out = Out { lines: vec![] };
     let n = |q: usize, t: usize| if thorough { t } else { q };
     match prop {
-        "C01" => decode_stream(&r, &mut out, n(30000, 600000), false),
+        "C01" => decode_stream(&r, &mut out, n(30000, 1800000), false),
         "C02" => {
-            decode_stream(&r, &mut out, n(25000, 400000), true);
+            decode_stream(&r, &mut out, n(25000, 1200000), true);
             reveal_stream(&r, &mut out, n(3000, 60000));
         }
-        "C03" => c03_stream(&r, &mut out, n(6000, 120000), thorough),
-        "C04" => c04_stream(&r, &mut out, n(20000, 400000)),
+        "C03" => c03_stream(&r, &mut out, n(6000, 400000), thorough),
+        "C04" => c04_stream(&r, &mut out, n(20000, 1000000)),
         "C05" => {
-            decode_stream(&r, &mut out, n(30000, 600000), true);
+            decode_stream(&r, &mut out, n(30000, 1500000), true);
             // all attribute numbers with a payload every kind accepts
             for x in 0..=65535u32 {
                 if thorough || x < 300 || x % 97 == 0 {
@@ -2234,7 +2234,7 @@ pub fn generate(prop: &str, tier: &str, seed: u64) -> Vec<String> {
             for t in systematic_avps(true) {
                 out.push(format!("enca . {}", t.render()));
             }
-            enc_stream(&r, &mut out, n(15000, 300000), false, false);
+            enc_stream(&r, &mut out, n(15000, 900000), false, false);
             // the specified octets do not depend on what the writer already holds
             enc_stream(&r, &mut out, n(3000, 60000), true, false);
             for m in MESSAGE_TYPES.iter() {
@@ -2282,7 +2282,7 @@ pub fn generate(prop: &str, tier: &str, seed: u64) -> Vec<String> {
             for p in PROXY_TYPES.iter() {
                 out.push(format!("enca . ProxyAuthenType({:?})", p));
             }
-            enc_stream(&r, &mut out, n(8000, 150000), true, true)
+            enc_stream(&r, &mut out, n(8000, 450000), true, true)
         }
         "C08" => c08_stream(&r, &mut out, n(20000, 400000)),
         "C09" => {
@@ -2379,10 +2379,10 @@ pub fn generate(prop: &str, tier: &str, seed: u64) -> Vec<String> {
         }
         "C13" => reveal_stream(&r, &mut out, n(30000, 600000)),
         "C14" => c14_stream(&r, &mut out, thorough),
-        "C15" => c15_stream(&r, &mut out, n(12000, 250000)),
+        "C15" => c15_stream(&r, &mut out, n(12000, 750000)),
         "C16" => c16_stream(&mut out, thorough),
         "C17" => c17_stream(&r, &mut out, n(500, 10000)),
-        "C18" => c18_stream(&r, &mut out, n(15000, 300000)),
+        "C18" => c18_stream(&r, &mut out, n(15000, 900000)),
         "C19" => {
             c19_stream(&r, &mut out, n(6000, 100000));
             // a print or a memo can sit on any path: a sample of every other property's stream, so that whatever
@@ -2394,7 +2394,7 @@ pub fn generate(prop: &str, tier: &str, seed: u64) -> Vec<String> {
                 out.lines.extend(ls.into_iter().step_by(step));
             }
         }
-        "C20" => c20_stream(&r, &mut out, n(12000, 250000), thorough),
+        "C20" => c20_stream(&r, &mut out, n(12000, 750000), thorough),
         _ => {}
     }
     out.lines
